@@ -2,6 +2,7 @@ package mon
 
 import (
 	"fmt"
+	"github.com/xjslang/xjs/parser"
 
 	"github.com/xjslang/xjs/ast"
 	"github.com/xjslang/xjs/lexer"
@@ -121,6 +122,18 @@ func runC12(t *fw.T, prog *gen.Node, lay NamedLayout) {
 				b := newBuilder(Mode{Tolerant: true, Smart: true})
 				b.Build("a b {").ParseProgram()
 				b.WithTolerantMode(false).WithSmartSemicolon(false)
+				p := b.Build(c.text)
+				prog, err := p.ParseProgram()
+				po = ParseOut{Prog: prog, Err: err, Errors: p.Errors(), P: p}
+				return
+			}
+			if i%4 == 1 {
+				// a strict parser builder whose lexer builder is shared with a tolerant parser builder (one lexer
+				// configuration serving several parser configurations): the neighbour's modes are not this builder's
+				lb := lexer.NewBuilder()
+				nb := parser.NewBuilder(lb).WithTolerantMode(true).WithSmartSemicolon(true)
+				b := parser.NewBuilder(lb)
+				nb.Build("a b {").ParseProgram()
 				p := b.Build(c.text)
 				prog, err := p.ParseProgram()
 				po = ParseOut{Prog: prog, Err: err, Errors: p.Errors(), P: p}
